@@ -848,9 +848,9 @@ int disasm_msp430(
           break;
         case OP_CALLA_INDIRECT_PC:
           num = ((opcode & 0xf) << 16) | READ_RAM16(address + 2);
-          if ((num & 0x80000) != 0) { num |= 0xfff0000; }
+          if ((num & 0x80000) != 0) { num |= 0xfff00000; }
           snprintf(instruction, length, "%s 0x%x(%d)",
-            table_msp430[n].instr, address + 2 + num, num);
+            table_msp430[n].instr, (address + 2 + num) & 0xfffff, num);
           *cycles_min = 6;
           *cycles_max = *cycles_min;
           count += 4;
